@@ -227,6 +227,22 @@ CHECKS = {
         note="Non-split parity; faults that fired only in read-ahead beyond the stripe where the command stopped are not counted; "
              "quick samples faults, thorough uses the same generator with 12x the cases (not a full enumeration of every call).",
         design="DESIGN.md section 4, C08"),
+    "C09": dict(
+        category="fault_enumeration",
+        technique="mutation sweep through a fork server around the tree's own loader (ASan+UBSan), sampled CLI runs of the sanitizer build, and kill-point enumeration of the save sequence (LD_PRELOAD shim) with a syscall-trace order check",
+        engine="hypothesis-cli + native/loader_harness.c",
+        text="Seed content files reached by random histories and synthesised with boundary values (both formats, all record kinds) are "
+             "mutated inside the property's domain -- truncations, single-bit flips, byte substitutions, random multi-byte damage incl. "
+             "varint-boundary patterns -- and each mutation is loaded in a forked child of an ASan/UBSan build of state_read: never "
+             "loaded, never a sanitizer report or memory fault (~2*10^5 mutations quick; thorough enumerates all truncations, all bit "
+             "flips and all 255 substitutions per byte of files up to 1.5 KiB). A sample is run through status/diff/list/check/sync/"
+             "scrub/fix/dup, which must fail and change nothing. Saves by sync, scrub and touch with 1..7 copies are killed at "
+             "state-changing calls: every copy stays a complete old, intermediate or new version; the trace shows write, fsync and a "
+             "full read-back before each rename; after success all copies are identical and no .tmp is left.",
+        note="Multi-byte mutations whose CRC-32C still matches are exempted (independent CRC); signal 9 / out-of-memory is inconclusive; "
+             "durability against power loss is not simulated (order only). The libFuzzer target planned in DESIGN was not built: the "
+             "fork-server sweep with domain mutations already reaches the loader at ~3k loads/s/core.",
+        design="DESIGN.md section 4, C09"),
 }
 
 NOT_YET = "check not built yet at this commit (planned in DESIGN.md section 4); not claimed until it runs"
